@@ -72,7 +72,8 @@ claim("C01",
       "Decides necessary structural conditions of 'one seed per attractor': seeds are full states; the exact filter subtracts "
       "the current candidate before its test and unites every accepted closure into the avoid set; unchecked shortcuts are "
       "taken only under their sound guards; every 'no attractor here' mark is backed by the source shortcut or by an "
-      "emptiness test of the corresponding sub-diagram node; sub-diagrams are built over regulator-closed sets; nodes with "
+      "emptiness test of the corresponding sub-diagram node; sub-diagrams are built over regulator-closed sets and, where kept, keyed by the node they were made for; refuted "
+      "candidates leave the avoid set; nodes with "
       "partial successor sets must be marked attractor-free (S7 reports the known defect F12 of the source-SCC expansion).",
       "The mathematics of the NFVS reduction, of the clean-block and SCC arguments and AEON's reachability are assumed; the "
       "behaviour itself (equality with the network's attractors) is not decided.",
